@@ -75,23 +75,39 @@ def main():
         old = json.load(open(os.path.join(dst, "meta.json")))
     old.update(meta)
     meta = old
-    # run the checks against it
-    st = subprocess.run(["git", "-C", REPO, "status", "--porcelain"], capture_output=True, text=True).stdout
-    assert st.strip() == "", "/repo not clean: " + st
+    # run the checks against it: either in /repo itself (apply, check, undo) or — while other work is going on
+    # against /repo — in a scratch worktree handed to the checks through VERIF_REPO
     results = meta.setdefault("checks_run", {})
-    rc, out = sh("git -C %s apply %s" % (REPO, os.path.join(dst, "patch.diff")))
-    assert rc == 0, out
+    in_repo = "--in-repo" in sys.argv
+    if in_repo:
+        st = subprocess.run(["git", "-C", REPO, "status", "--porcelain"], capture_output=True, text=True).stdout
+        assert st.strip() == "", "/repo not clean: " + st
+        target = REPO
+        rc, out = sh("git -C %s apply %s" % (REPO, os.path.join(dst, "patch.diff")))
+        assert rc == 0, out
+    else:
+        target = "/tmp/seedrun_%s" % name
+        sh("git -C %s worktree remove --force %s" % (REPO, target))
+        rc, out = sh("git -C %s worktree add --detach %s HEAD" % (REPO, target))
+        assert rc == 0, out
+        rc, out = sh("git apply %s" % os.path.join(dst, "patch.diff"), cwd=target)
+        assert rc == 0, out
     try:
         for c in checks:
             t0 = time.time()
-            rc, out = sh("./check %s --tier quick" % c, cwd=ROOT, timeout=3600)
+            rc, out = sh("VERIF_REPO=%s ./check %s --tier quick" % (target, c), cwd=ROOT, timeout=3600)
             viol = [l for l in out.splitlines() if l.startswith("VIOLATION")]
             results[c] = {"exit": rc, "caught": rc == 1 and bool(viol), "violation_lines": viol[:3],
                           "first_detail": next((l.strip()[:300] for l in out.splitlines() if l.strip().startswith("->")), ""),
-                          "wall_s": round(time.time() - t0, 1)}
+                          "wall_s": round(time.time() - t0, 1), "against": "/repo (patched, then reverted)" if in_repo else "scratch worktree of /repo via VERIF_REPO",
+                          "verif_commit": subprocess.run(["git", "-C", ROOT, "rev-parse", "--short", "HEAD"], capture_output=True, text=True).stdout.strip()}
             print("check %s: exit %d caught=%s %s" % (c, rc, results[c]["caught"], viol[:1]))
     finally:
-        sh("git -C %s checkout -- ." % REPO)
+        if in_repo:
+            sh("git -C %s checkout -- ." % REPO)
+        else:
+            sh("git -C %s worktree remove --force %s" % (REPO, target))
+            shutil.rmtree(target, ignore_errors=True)
     meta["what_ran"] = ("scratch worktree of /repo: git apply, full pinned test suite, demo.py with and without the change; "
                         "then patch applied to /repo, ./check <id> --tier quick, git checkout -- .")
     json.dump(meta, open(os.path.join(dst, "meta.json"), "w"), indent=1, ensure_ascii=False)
